@@ -21,6 +21,7 @@ RULES = {
     "R19.1": "the multi-index passed to ravel_multi_index is VECTOR - MINS (translation by the lower bounds)",
     "R19.2": "per dimension, the arange count (MAXS[i]+1) - MINS[i] equals the dimensions entry MAXS[i]-MINS[i]+1 used for indexing",
     "R19.3": "the space is itertools.product(*ranges) with ranges[i] = arange(MINS[i], MAXS[i]+1) in dimension order",
+    "R19.5": "the index function handed out is the one defined in this call, over this call's bounds: no module-level mutable container (a cache of functions / spaces / tables shared between calls) is written by any function of the package, so what a call returns never depends on earlier calls (expected count zero)",
     "R19.4": "ravel_multi_index uses the space's own dimensions and mode='clip' (out-of-box vectors map to the nearest row, as documented)",
 }
 ASSUMPTIONS = [
@@ -28,7 +29,52 @@ ASSUMPTIONS = [
 ]
 
 
+MUTATORS = ("append", "extend", "insert", "update", "setdefault", "pop", "popitem", "clear", "remove", "add", "discard", "__setitem__")
+
+
+def _module_state(ctx, col):
+    """R19.5 (filed by every property that quantifies over histories through C19's index functions): module-level containers
+    that functions write."""
+    import ast
+
+    n = 0
+    for m in sorted(ctx.repo.modules.values(), key=lambda x: x.name):
+        containers = {}
+        for node in m.tree.body:
+            tgt = val = None
+            if isinstance(node, ast.Assign) and len(node.targets) == 1 and isinstance(node.targets[0], ast.Name):
+                tgt, val = node.targets[0].id, node.value
+            elif isinstance(node, ast.AnnAssign) and isinstance(node.target, ast.Name) and node.value is not None:
+                tgt, val = node.target.id, node.value
+            if tgt and (isinstance(val, (ast.Dict, ast.List, ast.Set)) or (isinstance(val, ast.Call) and ast.unparse(val.func).split(".")[-1] in
+                                                                         ("dict", "list", "set", "defaultdict", "OrderedDict", "WeakValueDictionary", "Counter", "deque"))):
+                containers[tgt] = node
+        n += 1
+        if not containers:
+            continue
+        for fn in [x for x in ast.walk(m.tree) if isinstance(x, (ast.FunctionDef, ast.Lambda))]:
+            local = {a.arg for a in fn.args.args + fn.args.kwonlyargs} | ({x.id for x in ast.walk(fn) if isinstance(x, ast.Name) and isinstance(x.ctx, ast.Store)}
+                                                                        - {g for s_ in ast.walk(fn) if isinstance(s_, ast.Global) for g in s_.names})
+            for x in ast.walk(fn):
+                name = None
+                if isinstance(x, ast.Subscript) and isinstance(x.ctx, (ast.Store, ast.Del)) and isinstance(x.value, ast.Name):
+                    name = x.value.id
+                elif isinstance(x, ast.Call) and isinstance(x.func, ast.Attribute) and x.func.attr in MUTATORS and isinstance(x.func.value, ast.Name):
+                    name = x.func.value.id
+                elif isinstance(x, ast.AugAssign) and isinstance(x.target, ast.Name) and x.target.id in containers and any(
+                        isinstance(s_, ast.Global) and x.target.id in s_.names for s_ in ast.walk(fn)):
+                    name = x.target.id
+                if name in containers and name not in local:
+                    col.add("R19.5", f"{m.name}.{getattr(fn, 'name', '<lambda>')}", m.relpath, x.lineno, False,
+                            f"`{ast.unparse(x)[:70]}` writes the module-level container `{name}` (line {containers[name].lineno}): state shared by all "
+                            "calls in the process - what this function returns for one argument can depend on which arguments it saw before",
+                            text=f"module state {name}")
+    col.add("R19.5", "package", "src/mdpax", 0, True, f"{n} modules scanned: no function writes a module-level container", text="module state scanned")
+
+
 def run(ctx: Context, col) -> None:
+    _module_state(ctx, col)
+    col.floor("R19.5", 1)
     m = ctx.repo.module("mdpax.utils.spaces")
     fn = m.functions.get("create_range_space")
     if fn is None:
